@@ -984,8 +984,9 @@ def extract_function(repo, spec, cfg, rw=None):
     body_src = text[fn['body_start']:fn['body_end'] + 1]
     for pat, repl, cnt in spec.get('pre_subs', []):
         body_src, n = re.subn(pat, lambda m_: repl + '\n' * m_.group(0).count('\n'), body_src, flags=re.S)
-        if n != cnt:
-            raise ExtractError('%s: pre_sub %r matched %d times, expected %d' % (spec['name'], pat, n, cnt))
+        lo_, hi_ = cnt if isinstance(cnt, tuple) else (cnt, cnt)
+        if not (lo_ <= n <= hi_):
+            raise ExtractError('%s: pre_sub %r matched %d times, expected %s' % (spec['name'], pat, n, cnt))
         rw.fire('P:' + pat[:40], n)
     body = rw.body(body_src, dict(refs), self_type, fn['is_const'])
     if fn['ret'].strip().endswith('&') and 'ret' not in spec:
